@@ -10,6 +10,8 @@ run_one() {
     if echo "$r" | grep -a -q "^VIOLATION property=$p"; then
       if echo "$r" | grep -a "^VIOLATION property=$p" | grep -a -v -q "no-failing-input-found"; then k="ALARM replayed"; else k="ALARM no-input"; fi
       echo "$label $p $k :: $(echo "$r" | grep -a -E "FAILED-OBLIGATION|FAILED-BOUNDED" | head -2 | cut -c1-150 | tr '\n' '|')"
+    elif ! echo "$r" | grep -a -q "^property=$p "; then
+      echo "$label $p INCOMPLETE (the check did not print its summary line: killed or crashed)"
     else
       u=$(echo "$r" | grep -a -c "^UNDECIDED property=$p")
       echo "$label $p OK undecided=$u"
